@@ -324,4 +324,62 @@ theorem rectW_agrees (lum : List Nat) (w x0 y0 nx ny : Nat) (test : Nat → Bool
   | error e => rw [hm] at this; exact this
   | ok rows => rw [hm] at this; exact this
 
+/-! ### the bucket-filling loop -/
+
+theorem histogram_length (ps : List Nat) : (histogram ps).length = 32 := by simp [histogram, LUMINANCE_BUCKETS]
+
+theorem bucketOf_lt (p : Nat) : bucketOf p < 32 := by
+  unfold bucketOf
+  have := Nat.mod_lt p (by decide : 256 > 0)
+  omega
+
+theorem histogram_getElem (ps : List Nat) (i : Nat) (h : i < (histogram ps).length) :
+    (histogram ps)[i] = ps.countP (fun p => bucketOf p == i) := by
+  simp [histogram]
+
+/-- one more sampled pixel: its bucket is incremented -/
+theorem histogram_snoc (ps : List Nat) (p : Nat) :
+    histogram (ps ++ [p]) = (histogram ps).set (bucketOf p) ((histogram ps)[bucketOf p]'(by rw [histogram_length]; exact bucketOf_lt p) + 1) := by
+  apply List.ext_getElem
+  · simp [histogram_length]
+  · intro i h1 h2
+    rw [histogram_getElem, List.getElem_set, List.countP_append]
+    by_cases hb : bucketOf p = i
+    · subst hb
+      simp [histogram_getElem, List.countP_cons]
+    · have : (bucketOf p == i) = false := by simpa using hb
+      simp [hb, histogram_getElem, List.countP_cons, this]
+
+open Gzx.Bits in
+/-- one iteration of `localBuckets[(localLuminances[x]&0xff)>>3]++` -/
+def histStep (lum : List Nat) (acc : List Nat) (x : Nat) : Res (List Nat) :=
+  match lum[x]? with
+  | none => .error oob
+  | some p => updWord acc (bucketOf p) (· + 1)
+
+theorem foldlM_hist_prefix (lum : List Nat) :
+    ∀ k, k ≤ lum.length → (List.range' 0 k).foldlM (histStep lum) (histogram []) = .ok (histogram (lum.take k)) := by
+  intro k
+  induction k with
+  | zero => intro _; simp [pure, Except.pure]
+  | succ k ih =>
+    intro h
+    rw [List.range'_1_concat, List.foldlM_append, ih (by omega)]
+    simp only [bind, Except.bind, List.foldlM, Nat.zero_add, pure, Except.pure, histStep]
+    rw [List.getElem?_eq_getElem (by omega)]
+    simp only [Bits.updWord]
+    rw [List.getElem?_eq_getElem (by rw [histogram_length]; exact bucketOf_lt _)]
+    simp only []
+    rw [List.take_succ_eq_append_getElem (by omega), histogram_snoc]
+
+theorem foldlM_hist (lum : List Nat) (n : Nat) :
+    (List.range' 0 n).foldlM (histStep lum) (histogram []) =
+      if lum.length < n then .error oob else .ok (histogram (lum.take n)) := by
+  by_cases h : lum.length < n
+  · simp only [h, if_true]
+    refine foldlM_range_error _ _ _ lum.length n oob h (foldlM_hist_prefix lum lum.length (Nat.le_refl _)) ?_
+    simp [histStep]
+  · simp only [h, if_false]
+    exact foldlM_hist_prefix lum n (by omega)
+
 end Gzx.K17
